@@ -51,6 +51,13 @@ def rule_a(ctx):
                "the scheduler-queue guard must be released before the (possibly blocking) synchronize", [s])
         ctx.ob("run-unlocked|%s" % b.name, all(guard_released(b, r) for r in runs),
                "the scheduler-queue guard must be released before the executor runs (handlers schedule events)", runs)
+        # must-pass-through (a new fast path must not skip the clock or the computations of the new time)
+        for x in writes:
+            ctx.ob("written-time-synchronised|%s" % b.name, not b.path_exists_to_return(x, avoiding=[s]),
+                   "once the new time is written, every path to a return passes synchronize (no early return between the two)", [x, s])
+        oos_sites = list(b.aggregates(adt="simulation::ExecutionError", variant="OutOfSync"))
+        ctx.ob("synchronised-time-run|%s" % b.name, not b.path_exists_to_return(s, avoiding=runs + oos_sites),
+               "after synchronize every path to a return runs the executor, except the one that reports OutOfSync", [s] + runs)
         # value
         w = [x for x in writes if b.dominates(x, s)][0]
         wo = K.call_arg_origins(w, 1)
